@@ -1,5 +1,8 @@
 SPECIFICATION Spec
 CONSTANTS MaxLen = 3
   Sizes = {64, 80}
+  Pkts <- LinkPkts
+  Filters <- LinkFilters
+  CutAll = TRUE
 INVARIANTS ChainExact PrefixKept Emit
 CHECK_DEADLOCK FALSE
